@@ -43,8 +43,8 @@ func c35Real() c35Anchors {
 		spawn:         modPath + "/errguard.Go",
 		newGroup:      modPath + "/sql.Context.NewErrgroup",
 		confinedTypes: []string{modPath + "/sql.ByteBuffer"},
-		floors: map[string]int{"C35-F0": 5, "C35-P1": 16, "C35-P2": 12, "C35-P3": 20, "C35-P4": 15, "C35-P5": 1,
-			"C35-P6": 4, "C35-W1": 2, "C35-B1": 2, "C35-E1": 27},
+		floors: map[string]int{"C35-F0": 4, "C35-P1": 16, "C35-P2": 12, "C35-P3": 20, "C35-P4": 15, "C35-P5": 1,
+			"C35-P6": 4, "C35-W1": 2, "C35-B1": 2, "C35-E1": 22},
 		exceptions: map[string]string{
 			"C35-P4:resultForDefaultIter/batch/assign res = resultFromOkResult(…)": "the batch is replaced by the OkResult's result only after `if res.RowsAffected > 0 { panic }` on the same path: the discarded batch holds no rows (rows and OkResults never mix in one result set)",
 		},
@@ -125,7 +125,8 @@ type c35Fn struct {
 	parents map[ast.Node]ast.Node
 
 	iterVars []*types.Var
-	cbVar    *types.Var
+	cbVar    *types.Var   // the client callback: the function value doQuery hands to the family
+	cbCands  []*types.Var // parameters of func type with an error result
 
 	// pipeline roles (nil/empty for the non-pipeline siblings)
 	groupVar, gctxVar *types.Var
@@ -135,6 +136,7 @@ type c35Fn struct {
 	stages            []*c35Stage
 	spawnCalls        []*ast.CallExpr
 	batchVar          *types.Var // set by P4
+	foreignSpawn      ast.Node   // a goroutine started other than through the spawn helper
 }
 
 type c35Stage struct {
@@ -371,14 +373,17 @@ func c35NewFn(c *Ctx, a *c35Anchors, pk *packages.Package, fd *ast.FuncDecl) *c3
 			if c35IsIterType(v.Type()) {
 				f.iterVars = append(f.iterVars, v)
 			}
-			if c35FuncVarWithErr(v) && f.cbVar == nil {
-				f.cbVar = v
+			if c35FuncVarWithErr(v) {
+				f.cbCands = append(f.cbCands, v)
 			}
 		}
 	}
 	// stages
 	inspectAll := func(fn func(n ast.Node) bool) { ast.Inspect(fd.Body, fn) }
 	inspectAll(func(n ast.Node) bool {
+		if g, ok := n.(*ast.GoStmt); ok && f.foreignSpawn == nil {
+			f.foreignSpawn = g
+		}
 		call, ok := n.(*ast.CallExpr)
 		if !ok {
 			return true
@@ -386,6 +391,9 @@ func c35NewFn(c *Ctx, a *c35Anchors, pk *packages.Package, fd *ast.FuncDecl) *c3
 		fn := Callee(f.info, call)
 		if fn == nil {
 			return true
+		}
+		if sig, ok := fn.Type().(*types.Signature); ok && sig.Recv() != nil && fn.Name() == "Go" && FullName(fn.Origin()) != a.spawn && f.foreignSpawn == nil {
+			f.foreignSpawn = call // errgroup.Group.Go (or any Go method) called directly
 		}
 		switch FullName(fn.Origin()) {
 		case a.spawn:
@@ -580,6 +588,33 @@ func runC35(c *Ctx, a c35Anchors) {
 	for _, fn := range order {
 		fd := c.P.Decl(fn)
 		f := c35NewFn(c, &a, pk, fd)
+		// the callback: the dispatcher's function-typed argument and the parameter that receives it
+		for _, call := range famCalls[fn] {
+			for i, arg := range call.Args {
+				v, ok := c35Obj(pk.TypesInfo, arg).(*types.Var)
+				if !ok || !c35FuncVarWithErr(v) {
+					continue
+				}
+				isCand := false
+				for _, cv := range disp.cbCands {
+					isCand = isCand || cv == v
+				}
+				if !isCand {
+					continue
+				}
+				if disp.cbVar == nil {
+					disp.cbVar = v
+				}
+				if sig, ok := fn.Type().(*types.Signature); ok && i < sig.Params().Len() {
+					pv := sig.Params().At(i)
+					for _, cv := range f.cbCands {
+						if cv == pv {
+							f.cbVar = cv
+						}
+					}
+				}
+			}
+		}
 		family = append(family, f)
 		kind := "sequential"
 		if len(f.spawnCalls) > 0 {
@@ -588,6 +623,10 @@ func runC35(c *Ctx, a c35Anchors) {
 		}
 		if len(f.iterVars) == 0 {
 			c.Undecided("C35-F0", f.name, fd.Pos(), "no iterator-typed parameter found")
+			continue
+		}
+		if f.foreignSpawn != nil {
+			c.Bad("C35-F0", f.name, f.foreignSpawn.Pos(), fmt.Sprintf("%s starts a goroutine other than through %s: that goroutine is not a stage the pipeline rules can see (and is outside the errgroup's panic/cancel handling)", f.name, a.spawn))
 			continue
 		}
 		c.Ok("C35-F0", f.name, fd.Pos(), kind)
